@@ -13,7 +13,7 @@ func init() {
 		Level: "other",
 		Explanation: "Decides, for every path from every entry point of package command (hence every interleaving of writers), the region structure that makes the persisted log a gap-free chain: R05a every store to Commander.lastLog and every Batcher.Append happen with Commander.mu held, in the same uninterrupted held region, and the appended value is the stored chain head; R05b/c every store to Commander.lastTXID lies in such a region too (an id is published only together with the log that carries it; no exit from the region between allocation and hand-off), is lastTXID+1, and that value is the one given to the log builder; " +
 			"R05g reads of lastLog/lastTXID outside Init hold the mutex; R05d the batcher has exactly one worker and its pending FIFO is only touched under its mutex; R05e Init reloads lastLog/lastTXID from the store on every successful path and precedes the start of the worker; R05f hash inputs (previous hash, log content, id = previous id + 1). " +
-			"R05k the function that advances Commander.lastTXID does so only on paths where its boolean allocation switch was tested true (metadata logs consume no transaction id); " +
+			"R05l at every append with a constant allocation switch, `true` goes with a log builder that uses the transaction id it is given (or is handed down), `false` with one that ignores it; R05k the function that advances Commander.lastTXID does so only on paths where its boolean allocation switch was tested true (metadata logs consume no transaction id); " +
 			"R05h taking a batch splits the FIFO: every replacement of Batcher.pending that is not the tail append is paired with the batch handed over on the same path — {batch = pending, rest = fresh} or {batch = pending[:k], rest = pending[k:]} with one k — and nothing in package batching writes into the pending buffer in place (element store, copy, append to an upper-bounded slice of it, slices/sort mutators), since handed-out batches alias it. R05i the hand-off cannot refuse: every returning path of Batcher.Append has queued its object (the chain head and the id were advanced just before, under the same mutex). R05j one persister: Runner.runner (InsertLogs) is called at exactly one site of package job, the worker loop.",
 		NotDecided:  "the hash value itself; that InsertLogs keeps slice order inside one batch (COPY in one transaction, trusted); atomicity of PostgreSQL on crash.",
 		Trusted:     []string{"sync.Mutex semantics", "Batcher.Append enqueues in call order (checked: append to pending under Batcher.mu)", "job.Runner hands batches to the single worker in FIFO order"},
@@ -25,6 +25,7 @@ func init() {
 		ruleAppendAlwaysEnqueues(c, "R05i")
 		ruleR05j(c)
 		ruleTXIDAdvanceGuarded(c, "R05k")
+		ruleAllocationSwitchMatchesBuilder(c, "R05l")
 		ruleR05e(c)
 		ruleR05f(c, "R05f")
 	})
